@@ -254,7 +254,6 @@ func c02Cases(r *hutil.Rng, n int, thorough bool) []Case {
 	return out
 }
 
-
 // c02Pinned: consecutive autocommit statements on one pinned connection inside one global transaction.
 func c02Pinned(idx int, stmts []c02Stmt, f c02Fault) Case {
 	sc := atrun.Scenario{Name: fmt.Sprintf("c02-pinned-%d-%s", idx, f.name), Setup: []string{c02DDL}}
